@@ -327,6 +327,37 @@ harness(void)
 		CHECK(n == NPARKED, "the parked fragments stay queued");
 	}
 	CHECK(ws->rxframe != NULL && rd_calls >= 1, "the next frame is being read");
+#ifdef CTRL
+	/* a control frame (CTRL 1: PING, 2: PONG; CLEN payload bytes, always FIN) arrives between two fragments (RFC 6455 5.4
+	 * allows it): it is answered / ignored and changes nothing about the message being reassembled */
+	{
+		ws_frame *cf = ws->rxframe;
+		usz       cl = CLEN; /* concrete (R3: a symbolic length makes the PONG's buffer an object of symbolic size) */
+		cf->sdata[0] = ND(u8), cf->sdata[1] = ND(u8);
+		cf->buf   = cf->sdata;
+		cf->len   = cl;
+		cf->op    = CTRL == 1 ? WS_PING : WS_PONG;
+		cf->final = true;
+		int wr0   = wr_calls;
+		nni_mtx_lock(&ws->mtx);
+		ws_read_frame_cb(ws, cf);
+		ws_start_read(ws); /* as ws_read_cb does */
+		nni_mtx_unlock(&ws->mtx);
+		CHECK(env_aio_completed(&ua) == 0, "C16: a control frame in the middle of a fragmented message delivers nothing");
+		CHECK(ws->inmsg && !ws->closed, "C16: the message is still in progress and the connection is kept");
+		int n2 = 0;
+		ws_frame *qf2;
+		NNI_LIST_FOREACH (&ws->rxq, qf2) {
+			n2++;
+		}
+		CHECK(n2 == NPARKED, "C16: the fragments received so far stay queued");
+#if CTRL == 1
+		CHECK(wr_calls == wr0 + 1 || !nni_list_empty(&ws->txq), "a PING is answered with a PONG");
+#endif
+		CHECK(ws->rxframe != NULL, "the next frame is being read");
+		WITNESS("control frame between fragments");
+	}
+#endif
 	/* the final fragment arrives (its header has been decoded and its payload read: stage 3 hands it to ws_read_frame_cb) */
 	ws_frame *lf = ws->rxframe;
 	pay[NPARKED][0] = ND(u8), pay[NPARKED][1] = ND(u8);
